@@ -45,8 +45,10 @@ ASSUMPTIONS = [
     'relative target is resolved against is the link path without its final component; the algebra relating '
     'map_path(dirname(normpath(p))) to the directory part of map_path(p) is an assumed property of the posixpath '
     'externals (bounded exhaustive check, extra_checks) and the string lemma built on it is proved by SMT',
-    'a hostile server that first sends a symlink entry and then a directory of the same name is not covered (needs '
-    'file-system state)',
+    'destination-side file system STATE is modelled only as far as links created by the same transfer go: every '
+    'destination entry composed from a remote name must be shown not to be a symbolic link (dstfs.islink answered '
+    'False) before it is descended into / written (a hostile server can list a name twice: symlink, then directory '
+    'or file).  Links that already existed on disk, and races between the test and the use, are outside the contract',
     'the file-system objects handed to _copy / _begin_copy are LocalFS or SFTPClient (the two implementations of '
     '_SFTPFSProtocol, both under contract for basename / compose_path); their I/O methods (stat, mkdir, open, '
     'setstat, symlink, scandir) touch exactly the path they are given',
@@ -572,11 +574,30 @@ def copier_stub(cx):
 copier_stub.modifies = ()
 
 
+def not_a_link_evidence(cx, p):
+    """The destination entry `p` has been found NOT to be a symbolic link on this path: a dstfs.islink(p) call
+    answered False, and nothing that can create a link (dstfs.symlink, a nested copy) ran since.
+    Why evidence is needed at all: the names come from a hostile server, which can list one name twice (or make two
+    glob matches share a basename) - first as a symbolic link with a target of its choice, then as a directory or a
+    file.  So for every destination entry composed from a remote name it is possible that THIS transfer has created
+    a link there, and isdir()/open()/setstat() would follow it out of the destination."""
+    last = -1
+    for i, k in enumerate(cx.st.calls):
+        if k['key'] in ('dstfs.symlink', 'self._copy'):
+            last = i
+    alts = [z3.And(k['args'][0].z == p, z3.Not(k['ret'].z)) for k in cx.st.calls[last + 1:]
+            if k['key'] == 'dstfs.islink' and k.get('exc') is None and isinstance(k.get('ret'), VBool)]
+    return z3.Or(alts) if alts else z3.BoolVal(False)
+
+
 def nested_copy_stub(cx):
     """the recursive self._copy(srcfs, dstfs, srcfile, dstfile, ...) for an entry of the directory being copied:
     by its own contract it works at and below dstfile, so dstfile must be an entry of THIS activation's
     destination, whatever name the remote side reported"""
     cx.require('nested-destination-is-a-direct-child', P.direct_child(Z, dest_of(cx), cx.args[3].z))
+    # ... and nothing is written through (no directory is descended into at) an entry that this same transfer may
+    # have created as a symbolic link
+    cx.require('nested-destination-is-not-a-symlink', not_a_link_evidence(cx, cx.args[3].z))
     return [Out(event=('nested_copy', tuple(cx.args)))] + [Out(exc=VExc(e)) for e in IOERR]
 
 
@@ -597,6 +618,7 @@ copy = Spec(
         'srcfs.scandir': scandir_stub,
         'exc': exc_class_call_stub, 'setattr': noop(), 'error_handler': noop(), 'SFTPAttrs': new_obj_stub('SFTPAttrs'),
         'dstfs.isdir': touches('isdir', 0, 'bool', exact=True),
+        'dstfs.islink': may_raise(ret('bool', 'islink'), *IOERR),      # lstat-style test: does not follow links
         'dstfs.mkdir': touches('mkdir', 0, exact=True),
         'dstfs.symlink': touches('symlink', 1, exact=True),
         'dstfs.setstat': touches('setstat', 0, exact=True, raises=IOERR + ('SFTPOpUnsupported',)),
@@ -898,6 +920,11 @@ def top_copy_stub(cx):
                   z3.And(z3.Not(d.isnone), z3.Or(p == d.val.z, entry_of(d.val.z, p))))
     cx.require('top-level-destination-is-the-named-one-or-a-direct-child-unless-the-caller-wrote-dotdot',
                z3.And(entry, z3.Or(strict, dd)))
+    # a destination COMPOSED from a source name (anything but the path the caller named himself) may be an entry at
+    # which an earlier source of this same transfer created a symbolic link (two sources / glob matches with the
+    # same final component): it must have been found not to be a link
+    named = z3.And(z3.Not(d.isnone), p == d.val.z)
+    cx.require('composed-destination-is-not-a-symlink', z3.Or(named, not_a_link_evidence(cx, p)))
     return [Out(event=('copy', tuple(cx.args)))] + [Out(exc=VExc(e)) for e in IOERR]
 
 
@@ -912,6 +939,7 @@ begin_copy = Spec(
     classes=dict(CLIENT, SFTPClient={'ghost_dd': 'bool'}), setup=begin_copy_setup, region=begin_copy_region,
     stubs={'srcfs.basename': contract_stub(lambda: fs_basename_callee),
            'dstfs.compose_path': contract_stub(lambda: fs_compose_callee),
+           'dstfs.islink': may_raise(ret('bool', 'islink'), *IOERR),
            'self._copy': top_copy_stub},
     loops={3: LoopSpec(invariant=lambda c: z3.BoolVal(True))},
     raises={'SFTPError': True, 'OSError': True},
